@@ -125,6 +125,13 @@ theorem getSTH_tie_err (cfg : Cfg) (q : Req) (e : BErr) :
     handler cfg .getSTH q (.err e) =
       sthOutcome cfg (sthKind (Gen.getSignedLogRoot false false true false false 32) q.signOk) (toHTTPStatus cfg e) := by
   simp [handler, pre, respond, sthOutcome, sthKind, Gen.getSignedLogRoot, Gen.logSTHGetterGetSTH, Gen.logInfoGetSTH, Gen.getSTHHandler]
+/-- a mirror log's STH getter hands the backend's (and the STH storage's) error on unchanged, so `toHTTPStatus` still sees
+the gRPC code: quota, unavailability and timeouts keep their 429 / 503 / 504 on mirrors as well -/
+theorem mirror_getSTH_passthrough (rootFails storeFails : Bool) :
+    Gen.mirrorSTHGetterGetSTH rootFails storeFails =
+      if rootFails || storeFails then ErrKind.passthrough else ErrKind.ok := by
+  cases rootFails <;> cases storeFails <;> rfl
+
 /-! ## get-sth-consistency -/
 
 def parseCons (q : Req) : Option (Int × Int) :=
